@@ -100,6 +100,9 @@ func (c *cache) Set(key, val []byte) bool {
 
 	if c.conf.EnableLRU {
 		listAppend(&it.used, listLast(&c.usage))
+	} else {
+		// Make unlinking of the item a no-op when the usage list isn't used.
+		listInit(&it.used)
 	}
 
 	it2, exists := c.items[string(key)]
